@@ -27,6 +27,12 @@ func (fc *FuncCtx) evalIntrinsic(st *State, call *ast.CallExpr, fn *types.Func, 
 		}
 		return []Term{fc.binRead(st, call, call.Args[si], call.Args[di])}
 	}
+	if spec[0] == "flagvar" {
+		return fc.flagVar(st, call, fn)
+	}
+	if spec[0] == "flagparse" {
+		return fc.flagParse(st, call)
+	}
 	if strings.HasPrefix(spec[0], "js") {
 		return fc.jsonWrite(st, call, fn, spec[0])
 	}
